@@ -443,6 +443,11 @@ def write_evidence(ctx, cov, violations, extra_assumptions=()):
     }
     os.makedirs(os.path.join(VERIF, "evidence"), exist_ok=True)
     path = os.path.join(VERIF, "evidence", p.id + ".json")
+    if os.path.realpath(repo_path()) != "/repo":
+        # a run against another source tree (seeded change in a scratch worktree) must not
+        # overwrite the evidence of /repo itself
+        os.makedirs(os.path.join(OUT, p.id), exist_ok=True)
+        path = os.path.join(OUT, p.id, "evidence_alt_tree.json")
     json.dump(ev, open(path, "w"), indent=1, sort_keys=True)
     return path
 
